@@ -141,6 +141,9 @@ def mask_grid_data_array(mask: xarray.Dataset, data_array: xarray.DataArray) -> 
             logger.debug(
                 "Masking data array %r with mask %r",
                 data_array.name, mask_name)
+            # Only the mask values are wanted. Coordinate copies carried by the mask would
+            # otherwise be attached to the result and collide with variables of the same name.
+            mask_data_array = mask_data_array.reset_coords(drop=True)
             new_data_array = cast(xarray.DataArray, data_array.where(mask_data_array, other=fill_value))
             new_data_array.attrs = data_array.attrs
             new_data_array.encoding = data_array.encoding
